@@ -91,12 +91,7 @@ func (i *insertExecutor) beforeImage(ctx context.Context) (*types.RecordImage, e
 	if err != nil {
 		return nil, err
 	}
-	// INSERT INTO t VALUES (...): without a column list the values follow the order of the table's columns
-	if stmt := i.parserCtx.InsertStmt; stmt != nil && len(stmt.Columns) == 0 && len(stmt.Lists) > 0 && len(stmt.Setlist) == 0 {
-		for _, columnName := range metaData.ColumnNames {
-			stmt.Columns = append(stmt.Columns, &ast.ColumnName{Name: model.NewCIStr(DelEscape(columnName, types.DBTypeMySQL))})
-		}
-	}
+	nameColumnsOfTable(i.parserCtx.InsertStmt, metaData)
 	return types.NewEmptyRecordImage(metaData, types.SQLTypeInsert), nil
 }
 
@@ -472,6 +467,58 @@ func (i *insertExecutor) getPkValuesByColumn(ctx context.Context, execCtx *types
 		}
 	}
 	return pkValuesMap, nil
+}
+
+// nameColumnsOfTable gives an INSERT (REPLACE, INSERT IGNORE, INSERT ... ON DUPLICATE KEY UPDATE) without a column
+// list the list it stands for: INSERT INTO t VALUES (...) - the values follow the order of the table's columns
+func nameColumnsOfTable(stmt *ast.InsertStmt, metaData *types.TableMeta) {
+	if stmt != nil && metaData != nil && len(stmt.Columns) == 0 && len(stmt.Lists) > 0 && len(stmt.Setlist) == 0 {
+		for _, columnName := range metaData.ColumnNames {
+			stmt.Columns = append(stmt.Columns, &ast.ColumnName{Name: model.NewCIStr(DelEscape(columnName, types.DBTypeMySQL))})
+		}
+	}
+}
+
+// insertGivesItsKeys tells whether every row of an INSERT carries a value of its own for every primary-key column:
+// not NULL, not DEFAULT, not an expression, and not 0 for an AUTO_INCREMENT column. Otherwise the database assigns
+// the key, and the rows can only be found by the keys the result reports.
+func insertGivesItsKeys(ctx context.Context, parserCtx *types.ParseContext, execCtx *types.ExecContext) bool {
+	stmt := parserCtx.InsertStmt
+	if stmt == nil {
+		return true
+	}
+	tableName, err := parserCtx.GetTableName()
+	if err != nil {
+		return true
+	}
+	metaData, err := datasource.GetTableCache(types.DBTypeMySQL).GetTableMeta(ctx, execCtx.DBName, tableName)
+	if err != nil {
+		return true // (the executor reports it)
+	}
+	nameColumnsOfTable(stmt, metaData)
+	single := &insertExecutor{parserCtx: parserCtx, execContext: execCtx}
+	pkValues, err := single.parsePkValuesFromStatement(stmt, *metaData, execCtx.NamedValues)
+	if err != nil || len(pkValues) < len(metaData.GetPrimaryKeyOnlyName()) {
+		return false
+	}
+	for name, values := range pkValues {
+		columnMeta := metaData.GetPrimaryKeyMap()[name]
+		for _, value := range values {
+			if value == nil {
+				return false
+			}
+			if _, isCall := value.(*ast.FuncCallExpr); isCall {
+				return false
+			}
+			if _, isCall := value.(ast.FuncCallExpr); isCall {
+				return false
+			}
+			if columnMeta.Autoincrement && isZeroKey(value) {
+				return false
+			}
+		}
+	}
+	return true
 }
 
 // isZeroKey tells whether a key value of a statement is the number 0
